@@ -1,11 +1,7 @@
 import Cppcheck.Model.Match
 /- helper lemmas for C33 (core Lean only) -/
 namespace Cppcheck.Match
-
-/-- token-type invariant the compiled literal guards rely on, plus "only names carry a varid" -/
-def TokWF (t : Tok) : Bool :=
-  (lookupTypes t.str tokTypes = [] || (lookupTypes t.str tokTypes).contains t.ty)
-  && (t.varId = 0 || t.isName)
+open Cppcheck.Wire
 
 def advance : Goto → List Tok → List Tok
   | .none, ts => ts
@@ -57,5 +53,619 @@ def wordOk (v : Nat) : Word → Prop
   | .alts as _ => ∀ a ∈ as, atomOk v a
   | .one a => atomOk v a
   | _ => True
+
+theorem wordOk_of_nonzero (v : Nat) (hv : v ≠ 0) (w : Word) : wordOk v w := by
+  cases w <;> simp [wordOk, atomOk, hv]
+
+theorem wordOk_of_not_uses (ws : List Word) (h : usesVarid ws = false) : ∀ w ∈ ws, wordOk 0 w := by
+  intro w hw
+  simp only [usesVarid, List.any_eq_false] at h
+  have := h w hw
+  cases w with
+  | alts as opt =>
+    simp only [wordOk, atomOk]
+    intro a ha
+    left
+    simp only [List.any_eq_true, decide_eq_true_eq, not_exists, not_and] at this
+    exact fun e => this a ha e
+  | one a =>
+    simp only [wordOk, atomOk]
+    left
+    simpa using this
+  | cls _ => trivial
+  | neg _ => trivial
+
+/-! ### the error-aware language versus its two-valued core -/
+
+theorem evalR_ok (a : Atom) (t : Tok) (v : Nat) (h : atomOk v a) :
+    a.evalR t v = .ofBool (a.eval t v) := by
+  unfold Atom.evalR
+  rcases h with h | h
+  · simp [h]
+  · simp [h]
+
+theorem altsR_ok (as : List Atom) (t : Tok) (v : Nat) (h : ∀ a ∈ as, atomOk v a) :
+    altsR as t v = .ofBool (as.any (·.eval t v)) := by
+  induction as with
+  | nil => rfl
+  | cons a r ih =>
+    simp only [altsR, evalR_ok a t v (h a (by simp)), List.any_cons]
+    by_cases he : a.eval t v = true
+    · simp [he, Res.ofBool]
+    · simp only [he, Res.ofBool, Bool.false_eq_true, if_false, Bool.false_or]
+      exact ih (fun b hb => h b (by simp [hb]))
+
+/-- on words that cannot raise the error, `lang` is the two-valued core -/
+theorem langWords_eq_semWords (v : Nat) : ∀ (ws : List Word) (ts : List Tok),
+    (∀ w ∈ ws, wordOk v w) → langWords ws ts v = .ofBool (semWords ws ts v) := by
+  intro ws
+  induction ws with
+  | nil => intro ts _; simp [langWords, semWords, Res.ofBool]
+  | cons w ws ih =>
+    intro ts h
+    have hw := h w (by simp)
+    have ih' := fun ts' => ih ts' (fun w' hw' => h w' (by simp [hw']))
+    cases w with
+    | cls cs =>
+      cases ts with
+      | nil => simp [langWords, semWords, Res.ofBool]
+      | cons t r =>
+        simp only [langWords, semWords, ih']
+        split
+        · rename_i c _
+          by_cases hc : c ∈ cs <;> simp [hc, Res.ofBool]
+        · simp [Res.ofBool]
+    | alts as opt =>
+      simp only [wordOk] at hw
+      cases ts with
+      | nil => cases opt <;> simp [langWords, semWords, ih', Res.ofBool]
+      | cons t r =>
+        simp only [langWords, semWords, altsR_ok as t v hw, ih']
+        by_cases hc : as.any (·.eval t v) = true
+        · simp [hc, Res.ofBool]
+        · cases opt <;> simp [hc, Res.ofBool]
+    | neg s =>
+      cases ts with
+      | nil => simp [langWords, semWords, ih']
+      | cons t r =>
+        simp only [langWords, semWords, ih']
+        by_cases hs : t.str = s <;> simp [hs, Res.ofBool]
+    | one a =>
+      simp only [wordOk] at hw
+      cases ts with
+      | nil => simp [langWords, semWords, Res.ofBool]
+      | cons t r =>
+        simp only [langWords, semWords, evalR_ok a t v hw, ih']
+        by_cases hc : a.eval t v = true <;> simp [hc, Res.ofBool]
+
+/-- `lang` and the coarse `sem` agree wherever the error cannot occur -/
+theorem lang_eq_sem (ws : List Word) (ts : List Tok) (v : Nat) (hv : v ≠ 0 ∨ usesVarid ws = false) :
+    lang ws ts v = sem ws ts v := by
+  unfold lang sem
+  rcases hv with h | h
+  · rw [langWords_eq_semWords v ws ts (fun w _ => wordOk_of_nonzero v h w)]
+    simp [h]
+  · by_cases h0 : v = 0
+    · subst h0
+      rw [langWords_eq_semWords 0 ws ts (wordOk_of_not_uses ws h)]
+      simp [h]
+    · rw [langWords_eq_semWords v ws ts (fun w _ => wordOk_of_nonzero v h0 w)]
+      simp [h0]
+
+/-! ### the find loop -/
+
+/-- **declarative first match**: what a find over matcher `m` has to return on `ts` when the scan
+    covers the first `min ts.length budget` positions -/
+def FirstMatch (m : List Tok → Res) (ts : List Tok) (budget : Nat) : Find → Prop
+  | .hit i => i < ts.length ∧ i < budget ∧ m (ts.drop i) = .t ∧ ∀ j, j < i → m (ts.drop j) = .f
+  | .none => ∀ j, j < ts.length → j < budget → m (ts.drop j) = .f
+  | .err => ∃ i, i < ts.length ∧ i < budget ∧ m (ts.drop i) = .err ∧ ∀ j, j < i → m (ts.drop j) = .f
+
+theorem findWith_spec (m : List Tok → Res) : ∀ (ts : List Tok) (b : Nat), FirstMatch m ts b (findWith m ts b) := by
+  intro ts
+  induction ts with
+  | nil => intro b; simp [findWith, FirstMatch]
+  | cons t r ih =>
+    intro b
+    cases b with
+    | zero => simp [findWith, FirstMatch]
+    | succ b =>
+      simp only [findWith]
+      cases hm : m (t :: r) with
+      | t => simp [FirstMatch, hm]
+      | err => exact ⟨0, by simp, by simp, by simpa using hm, by simp⟩
+      | f =>
+        have := ih b
+        cases hf : findWith m r b with
+        | hit i =>
+          rw [hf] at this
+          simp only [FirstMatch] at this
+          simp only [Find.succ, FirstMatch, List.length_cons, List.drop_succ_cons]
+          refine ⟨by omega, by omega, this.2.2.1, ?_⟩
+          intro j hj
+          cases j with
+          | zero => simpa using hm
+          | succ j => simpa using this.2.2.2 j (by omega)
+        | none =>
+          rw [hf] at this
+          simp only [FirstMatch] at this
+          simp only [Find.succ, FirstMatch, List.length_cons]
+          intro j hj hb
+          cases j with
+          | zero => simpa using hm
+          | succ j => simpa using this j (by omega) (by omega)
+        | err =>
+          rw [hf] at this
+          simp only [FirstMatch] at this
+          obtain ⟨i, h1, h2, h3, h4⟩ := this
+          refine ⟨i + 1, by simp; omega, by omega, by simpa using h3, ?_⟩
+          intro j hj
+          cases j with
+          | zero => simpa using hm
+          | succ j => simpa using h4 j (by omega)
+
+/-- the declarative first match is a function: at most one result satisfies it -/
+theorem firstMatch_unique (m : List Tok → Res) (ts : List Tok) (b : Nat) (r r' : Find)
+    (h : FirstMatch m ts b r) (h' : FirstMatch m ts b r') : r = r' := by
+  cases r with
+  | hit i =>
+    cases r' with
+    | hit i' =>
+      simp only [FirstMatch] at h h'
+      have : i = i' := by
+        rcases Nat.lt_trichotomy i i' with hlt | heq | hgt
+        · have := h'.2.2.2 i hlt; rw [h.2.2.1] at this; cases this
+        · exact heq
+        · have := h.2.2.2 i' hgt; rw [h'.2.2.1] at this; cases this
+      rw [this]
+    | none =>
+      simp only [FirstMatch] at h h'
+      have := h' i h.1 h.2.1; rw [h.2.2.1] at this; cases this
+    | err =>
+      simp only [FirstMatch] at h h'
+      obtain ⟨i', h1, h2, h3, h4⟩ := h'
+      rcases Nat.lt_trichotomy i i' with hlt | heq | hgt
+      · have := h4 i hlt; rw [h.2.2.1] at this; cases this
+      · subst heq; rw [h.2.2.1] at h3; cases h3
+      · have := h.2.2.2 i' hgt; rw [h3] at this; cases this
+  | none =>
+    cases r' with
+    | hit i' =>
+      simp only [FirstMatch] at h h'
+      have := h i' h'.1 h'.2.1; rw [h'.2.2.1] at this; cases this
+    | none => rfl
+    | err =>
+      simp only [FirstMatch] at h h'
+      obtain ⟨i', h1, h2, h3, h4⟩ := h'
+      have := h i' h1 h2; rw [h3] at this; cases this
+  | err =>
+    simp only [FirstMatch] at h
+    obtain ⟨i, h1, h2, h3, h4⟩ := h
+    cases r' with
+    | hit i' =>
+      simp only [FirstMatch] at h'
+      rcases Nat.lt_trichotomy i i' with hlt | heq | hgt
+      · have := h'.2.2.2 i hlt; rw [h3] at this; cases this
+      · subst heq; rw [h'.2.2.1] at h3; cases h3
+      · have := h4 i' hgt; rw [h'.2.2.1] at this; cases this
+    | none =>
+      simp only [FirstMatch] at h'
+      have := h' i h1 h2; rw [h3] at this; cases this
+    | err => rfl
+
+theorem findWith_iff (m : List Tok → Res) (ts : List Tok) (b : Nat) (r : Find) :
+    findWith m ts b = r ↔ FirstMatch m ts b r :=
+  ⟨fun h => h ▸ findWith_spec m ts b, fun h => firstMatch_unique m ts b _ _ (findWith_spec m ts b) h⟩
+
+/-- two matchers that agree on every suffix of the list find the same position -/
+theorem findWith_congr (m m' : List Tok → Res) : ∀ (ts : List Tok) (b : Nat),
+    (∀ j, j < ts.length → m (ts.drop j) = m' (ts.drop j)) → findWith m ts b = findWith m' ts b := by
+  intro ts
+  induction ts with
+  | nil => intro b _; rfl
+  | cons t r ih =>
+    intro b h
+    cases b with
+    | zero => rfl
+    | succ b =>
+      have h0 := h 0 (by simp)
+      simp only [List.drop_zero] at h0
+      simp only [findWith, h0]
+      rw [ih b (fun j hj => by simpa using h (j + 1) (by simp; omega))]
+
+/-- the accumulator form of the compiled find is the find loop over `run p` -/
+def Find.legacy (idx : Nat) : Find → Option Nat ⊕ Unit
+  | .hit i => .inl (some (idx + i))
+  | Find.none => .inl Option.none
+  | .err => .inr ()
+
+theorem findFrom_eq_findWith (p : Prog) (v : Nat) : ∀ (ts : List Tok) (idx budget : Nat),
+    findFrom p v ts idx budget = (findWith (fun ts => run p ts v) ts budget).legacy idx := by
+  intro ts
+  induction ts with
+  | nil => intro idx budget; simp [findFrom, findWith, Find.legacy]
+  | cons t r ih =>
+    intro idx budget
+    cases budget with
+    | zero => simp [findFrom, findWith, Find.legacy]
+    | succ b =>
+      simp only [findFrom, findWith]
+      cases hm : run p (t :: r) v with
+      | t => simp [Find.legacy]
+      | err => simp [Find.legacy]
+      | f =>
+        simp only [ih (idx + 1) b]
+        cases findWith (fun ts => run p ts v) r b <;> simp [Find.legacy, Find.succ]; omega
+
+/-- spelling of a command -/
+def Cmd.spell : Cmd → Str
+  | .any => ['%','a','n','y','%'] | .assign => ['%','a','s','s','i','g','n','%'] | .bool => ['%','b','o','o','l','%']
+  | .char => ['%','c','h','a','r','%'] | .comp => ['%','c','o','m','p','%'] | .num => ['%','n','u','m','%']
+  | .cop => ['%','c','o','p','%'] | .op => ['%','o','p','%'] | .or => ['%','o','r','%'] | .oror => ['%','o','r','o','r','%']
+  | .str => ['%','s','t','r','%'] | .type => ['%','t','y','p','e','%'] | .name => ['%','n','a','m','e','%']
+  | .var => ['%','v','a','r','%'] | .varid => ['%','v','a','r','i','d','%']
+
+theorem Cmd.ofStr_spell (c : Cmd) : Cmd.ofStr c.spell = some c := by cases c <;> decide
+
+theorem Cmd.ofStr_some (a : Str) (c : Cmd) (h : Cmd.ofStr a = some c) : a = c.spell := by
+  unfold Cmd.ofStr at h
+  by_cases h1 : a = "%any%".toList
+  · rw [if_pos h1] at h; cases h; rw [h1]; rfl
+  rw [if_neg h1] at h; clear h1
+  by_cases h1 : a = "%assign%".toList
+  · rw [if_pos h1] at h; cases h; rw [h1]; rfl
+  rw [if_neg h1] at h; clear h1
+  by_cases h1 : a = "%bool%".toList
+  · rw [if_pos h1] at h; cases h; rw [h1]; rfl
+  rw [if_neg h1] at h; clear h1
+  by_cases h1 : a = "%char%".toList
+  · rw [if_pos h1] at h; cases h; rw [h1]; rfl
+  rw [if_neg h1] at h; clear h1
+  by_cases h1 : a = "%comp%".toList
+  · rw [if_pos h1] at h; cases h; rw [h1]; rfl
+  rw [if_neg h1] at h; clear h1
+  by_cases h1 : a = "%num%".toList
+  · rw [if_pos h1] at h; cases h; rw [h1]; rfl
+  rw [if_neg h1] at h; clear h1
+  by_cases h1 : a = "%cop%".toList
+  · rw [if_pos h1] at h; cases h; rw [h1]; rfl
+  rw [if_neg h1] at h; clear h1
+  by_cases h1 : a = "%op%".toList
+  · rw [if_pos h1] at h; cases h; rw [h1]; rfl
+  rw [if_neg h1] at h; clear h1
+  by_cases h1 : a = "%or%".toList
+  · rw [if_pos h1] at h; cases h; rw [h1]; rfl
+  rw [if_neg h1] at h; clear h1
+  by_cases h1 : a = "%oror%".toList
+  · rw [if_pos h1] at h; cases h; rw [h1]; rfl
+  rw [if_neg h1] at h; clear h1
+  by_cases h1 : a = "%str%".toList
+  · rw [if_pos h1] at h; cases h; rw [h1]; rfl
+  rw [if_neg h1] at h; clear h1
+  by_cases h1 : a = "%type%".toList
+  · rw [if_pos h1] at h; cases h; rw [h1]; rfl
+  rw [if_neg h1] at h; clear h1
+  by_cases h1 : a = "%name%".toList
+  · rw [if_pos h1] at h; cases h; rw [h1]; rfl
+  rw [if_neg h1] at h; clear h1
+  by_cases h1 : a = "%var%".toList
+  · rw [if_pos h1] at h; cases h; rw [h1]; rfl
+  rw [if_neg h1] at h; clear h1
+  by_cases h1 : a = "%varid%".toList
+  · rw [if_pos h1] at h; cases h; rw [h1]; rfl
+  rw [if_neg h1] at h; clear h1
+  exact absurd h (by simp)
+
+
+/-! ### a word that uses `%varid%` as a command spells it (so the compiler's textual test sees it) -/
+
+theorem mentions_of_infix (w pre suf : Wire.Str) (h : w = pre ++ "%varid%".toList ++ suf) :
+    wordMentionsVarid w = true := by
+  subst h
+  simp only [wordMentionsVarid, List.any_eq_true, List.mem_range, decide_eq_true_eq]
+  refine ⟨pre.length, by simp; omega, ?_⟩
+  simp
+
+theorem splitOn_infix (c : Char) : ∀ (w a : Wire.Str), a ∈ splitOn c w → ∃ pre suf, w = pre ++ a ++ suf := by
+  intro w
+  induction w with
+  | nil => intro a h; simp [splitOn] at h; subst h; exact ⟨[], [], rfl⟩
+  | cons x r ih =>
+    intro a h
+    simp only [splitOn] at h
+    by_cases hx : x = c
+    · simp only [hx, if_true, List.mem_cons] at h
+      rcases h with rfl | h
+      · exact ⟨[], x :: r, by simp⟩
+      · obtain ⟨pre, suf, e⟩ := ih a h
+        exact ⟨x :: pre, suf, by simp [e]⟩
+    · simp only [hx, if_false] at h
+      cases hs : splitOn c r with
+      | nil =>
+        rw [hs] at h
+        simp only [List.mem_singleton] at h
+        subst h
+        exact ⟨[], r, by simp⟩
+      | cons w0 ws0 =>
+        rw [hs] at h
+        simp only [List.mem_cons] at h
+        rcases h with rfl | h
+        · obtain ⟨pre, suf, e⟩ := ih w0 (by rw [hs]; simp)
+          -- w0 is the first part: it is a prefix of r
+          have hpre : ∃ suf', r = w0 ++ suf' := by
+            clear e ih
+            revert w0 ws0
+            induction r with
+            | nil => intro w0 ws0 hs; simp [splitOn] at hs; exact ⟨[], by simp [hs.1.symm]⟩
+            | cons y r' ihr =>
+              intro w0 ws0 hs
+              simp only [splitOn] at hs
+              by_cases hy : y = c
+              · simp only [hy, if_true, List.cons.injEq] at hs
+                exact ⟨y :: r', by simp [hs.1.symm]⟩
+              · simp only [hy, if_false] at hs
+                cases hs' : splitOn c r' with
+                | nil => rw [hs'] at hs; simp only [List.cons.injEq] at hs; exact ⟨r', by simp [hs.1.symm]⟩
+                | cons w1 ws1 =>
+                  rw [hs'] at hs
+                  simp only [List.cons.injEq] at hs
+                  obtain ⟨suf', e'⟩ := ihr w1 ws1 hs'
+                  exact ⟨suf', by rw [← hs.1, e']; simp⟩
+          obtain ⟨suf', e'⟩ := hpre
+          exact ⟨[], suf', by simp [e']⟩
+        · obtain ⟨pre, suf, e⟩ := ih a (by rw [hs]; simp [h])
+          exact ⟨x :: pre, suf, by simp [e]⟩
+
+theorem atom_varid_spelling (a : Wire.Str) (h : Atom.ofStr a = .cmd .varid) : a = "%varid%".toList := by
+  unfold Atom.ofStr at h
+  cases hc : Cmd.ofStr a with
+  | none => rw [hc] at h; cases h
+  | some c =>
+    rw [hc] at h
+    simp only [Atom.cmd.injEq] at h
+    subst h
+    exact Cmd.ofStr_some a .varid hc
+
+def clsCond (w : Str) : Prop := w.length > 2 ∧ w.head? = some '[' ∧ w.getLast? = some ']'
+def altCond (w : Str) : Bool := match findIdx '|' w with | some (_ + 1) => true | _ => false
+
+theorem ofStr_cls (w : Str) (h : clsCond w) : Word.ofStr w = .cls ((w.drop 1).dropLast) := by
+  unfold clsCond at h
+  simp only [Word.ofStr]
+  rw [if_pos h]
+
+theorem ofStr_alts (w : Str) (h1 : ¬ clsCond w) (h2 : altCond w = true) :
+    Word.ofStr w = .alts (((splitOn '|' w).filter (· ≠ [])).map Atom.ofStr) ((splitOn '|' w).any (· = [])) := by
+  unfold clsCond at h1
+  unfold altCond at h2
+  simp only [Word.ofStr]
+  rw [if_neg h1]
+  cases hf : findIdx '|' w with
+  | none => simp [hf] at h2
+  | some n =>
+    cases n with
+    | zero => simp [hf] at h2
+    | succ m => simp
+
+theorem ofStr_neg (w : Str) (h1 : ¬ clsCond w) (h2 : altCond w = false) (h3 : w.take 2 = ['!', '!']) :
+    Word.ofStr w = .neg (w.drop 2) := by
+  unfold clsCond at h1
+  unfold altCond at h2
+  simp only [Word.ofStr]
+  rw [if_neg h1]
+  cases hf : findIdx '|' w with
+  | none => simp [h3]
+  | some n =>
+    cases n with
+    | zero => simp [h3]
+    | succ m => simp [hf] at h2
+
+theorem ofStr_one (w : Str) (h1 : ¬ clsCond w) (h2 : altCond w = false) (h3 : ¬ w.take 2 = ['!', '!']) :
+    Word.ofStr w = .one (Atom.ofStr w) := by
+  unfold clsCond at h1
+  unfold altCond at h2
+  simp only [Word.ofStr]
+  rw [if_neg h1]
+  cases hf : findIdx '|' w with
+  | none => simp [h3]
+  | some n =>
+    cases n with
+    | zero => simp [h3]
+    | succ m => simp [hf] at h2
+
+theorem mentions_of_uses (w : Str) (h : wordUsesVarid (Word.ofStr w) = true) : wordMentionsVarid w = true := by
+  by_cases hc : clsCond w
+  · rw [ofStr_cls w hc] at h; simp [wordUsesVarid] at h
+  · by_cases ha : altCond w = true
+    · rw [ofStr_alts w hc ha] at h
+      simp only [wordUsesVarid, List.any_eq_true, List.mem_map, List.mem_filter, decide_eq_true_eq] at h
+      obtain ⟨A, ⟨a, ⟨hmem, _⟩, rfl⟩, hA⟩ := h
+      have := atom_varid_spelling a hA
+      subst this
+      obtain ⟨pre, suf, e⟩ := splitOn_infix '|' w _ hmem
+      exact mentions_of_infix w pre suf e
+    · have ha' : altCond w = false := by simpa using ha
+      by_cases hb : w.take 2 = ['!', '!']
+      · rw [ofStr_neg w hc ha' hb] at h; simp [wordUsesVarid] at h
+      · rw [ofStr_one w hc ha' hb] at h
+        simp only [wordUsesVarid, decide_eq_true_eq] at h
+        have := atom_varid_spelling w h
+        exact mentions_of_infix w [] [] (by simp [this])
+
+theorem wordOk_of_not_mentions (w : Wire.Str) (h : wordMentionsVarid w = false) : wordOk 0 (Word.ofStr w) := by
+  have hu : wordUsesVarid (Word.ofStr w) = false := by
+    cases hh : wordUsesVarid (Word.ofStr w) with
+    | false => rfl
+    | true => rw [mentions_of_uses w hh] at h; cases h
+  cases hw : Word.ofStr w with
+  | cls _ => trivial
+  | neg _ => trivial
+  | alts as opt =>
+    rw [hw] at hu
+    simp only [wordUsesVarid, List.any_eq_false, decide_eq_true_eq] at hu
+    exact fun a ha => Or.inl (hu a ha)
+  | one a =>
+    rw [hw] at hu
+    simp only [wordUsesVarid, decide_eq_false_iff_not] at hu
+    exact Or.inl hu
+
+/-- the code emitted for a word starts with the pending goto and, if needed, the varid check -/
+theorem compileWords_head (hv : Bool) (w : Wire.Str) (ws : List Wire.Str) (g : Goto) (chk : Bool) :
+    ∃ tail, compileWords hv (w :: ws) g chk =
+      g.steps ++ (if (hv && wordMentionsVarid w && !chk) = true then [Step.checkVarid] else []) ++ tail := by
+  simp only [compileWords]
+  cases Word.ofStr w with
+  | cls cs => simp only [List.append_assoc]; exact ⟨_, rfl⟩
+  | alts as opt =>
+    cases opt
+    · simp only [Bool.false_eq_true, if_false, List.append_assoc]; exact ⟨_, rfl⟩
+    · simp only [if_true, List.append_assoc]; exact ⟨_, rfl⟩
+  | neg s => simp only [List.append_assoc]; exact ⟨_, rfl⟩
+  | one a => simp only [List.append_assoc]; exact ⟨_, rfl⟩
+
+/-! ### the core induction: compiled words from any goto state versus the language
+
+In the *error regime* (`hasVarid`, `v = 0`, check not yet emitted) the compiled code throws at the
+first word that spells `%varid%`, whatever the tokens are; the language only throws when a
+`%varid%` alternative is evaluated.  So in general the compiled result is the language result or
+an InternalError under varid 0. -/
+
+theorem run_compileWords (hv : Bool) (v : Nat) :
+    ∀ (ws : List Str) (g : Goto) (chk : Bool) (ts : List Tok),
+      (∀ t ∈ ts, TokWF t = true) →
+      (((v ≠ 0 ∨ hv = false) ∧ ∀ w ∈ ws, wordOk v (Word.ofStr w)) ∨ (hv = true ∧ v = 0 ∧ chk = false)) →
+      run (compileWords hv ws g chk) ts v = langWords (ws.map Word.ofStr) (advance g ts) v ∨
+        (hv = true ∧ v = 0 ∧ run (compileWords hv ws g chk) ts v = .err) := by
+  intro ws
+  induction ws with
+  | nil => intro g chk ts _ _; left; simp [compileWords, run, langWords]
+  | cons w ws ih =>
+    intro g chk ts hts hreg
+    by_cases hE : hv = true ∧ v = 0 ∧ chk = false ∧ wordMentionsVarid w = true
+    · -- error regime and the word spells %varid%: the emitted check throws
+      obtain ⟨h1, h2, h3, h4⟩ := hE
+      right
+      refine ⟨h1, h2, ?_⟩
+      obtain ⟨tail, ht⟩ := compileWords_head hv w ws g chk
+      rw [ht, List.append_assoc, run_goto]
+      simp [h1, h3, h4, run, h2]
+    · have hck' : ∀ (p : Prog) (ts' : List Tok),
+          run ((if (hv && wordMentionsVarid w && !chk) = true then [Step.checkVarid] else []) ++ p) ts' v = run p ts' v := by
+        intro p ts'
+        split
+        · rename_i hb
+          simp only [Bool.and_eq_true, Bool.not_eq_true'] at hb
+          rcases hreg with ⟨h | h, _⟩ | ⟨h1, h2, h3⟩
+          · simp [run, h]
+          · rw [h] at hb; simp at hb
+          · exact absurd ⟨h1, h2, h3, hb.1.2⟩ hE
+        · rfl
+      have hw : wordOk v (Word.ofStr w) := by
+        rcases hreg with ⟨_, h⟩ | ⟨h1, h2, h3⟩
+        · exact h w (by simp)
+        · subst h2
+          apply wordOk_of_not_mentions
+          cases hm : wordMentionsVarid w with
+          | false => rfl
+          | true => exact absurd ⟨h1, rfl, h3, hm⟩ hE
+      have hreg' : ((v ≠ 0 ∨ hv = false) ∧ ∀ w' ∈ ws, wordOk v (Word.ofStr w')) ∨
+          (hv = true ∧ v = 0 ∧ (chk || (hv && wordMentionsVarid w && !chk)) = false) := by
+        rcases hreg with ⟨h, h'⟩ | ⟨h1, h2, h3⟩
+        · exact Or.inl ⟨h, fun w' hw' => h' w' (by simp [hw'])⟩
+        · right
+          refine ⟨h1, h2, ?_⟩
+          cases hm : wordMentionsVarid w with
+          | false => simp [h3]
+          | true => exact absurd ⟨h1, h2, h3, hm⟩ hE
+      have hadv : ∀ t ∈ advance g ts, TokWF t = true := by
+        intro t ht
+        cases g <;> simp only [advance] at ht
+        · exact hts t ht
+        · exact hts t (List.mem_of_mem_drop ht)
+        · exact hts t (List.mem_of_mem_drop ht)
+      have ih' := fun g' ts' hts' => ih g' (chk || (hv && wordMentionsVarid w && !chk)) ts' hts' hreg'
+      simp only [compileWords, List.map_cons]
+      generalize hA : advance g ts = A at hadv
+      cases hwd : Word.ofStr w with
+      | cls cs =>
+        simp only [List.append_assoc, run_goto, hA, hck']
+        cases A with
+        | nil => left; simp [run, langWords]
+        | cons t r =>
+          have := ih' .next (t :: r) hadv
+          simp only [advance, List.drop_one, List.tail_cons] at this
+          simp only [List.singleton_append, run, langWords]
+          cases hs : t.str with
+          | nil => left; simp
+          | cons c cr =>
+            cases cr with
+            | nil =>
+              by_cases hc : c ∈ cs
+              · simpa [hc] using this
+              · left; simp [hc]
+            | cons _ _ => left; simp
+      | alts as opt =>
+        rw [hwd] at hw
+        simp only [wordOk] at hw
+        cases opt with
+        | true =>
+          simp only [if_true, List.append_assoc, run_goto, hA, hck']
+          have hrec := ih' .none
+          simp only [advance] at hrec
+          cases A with
+          | nil =>
+            simp only [List.singleton_append, run, langWords, if_true]
+            exact hrec [] (by simp)
+          | cons t r =>
+            have ht : TokWF t = true := hadv t (by simp)
+            simp only [List.singleton_append, run, langWords, if_true, any_cond_eq as t v ht hw,
+              altsR_ok as t v hw]
+            by_cases hc : as.any (·.eval t v) = true
+            · simp only [hc, if_true, Res.ofBool]
+              exact hrec r (fun t' h' => hadv t' (by simp [h']))
+            · simp only [hc, Res.ofBool, Bool.false_eq_true, if_false]
+              exact hrec (t :: r) hadv
+        | false =>
+          simp only [Bool.false_eq_true, if_false, List.append_assoc, run_goto, hA, hck']
+          cases A with
+          | nil => left; simp [run, langWords]
+          | cons t r =>
+            have ht : TokWF t = true := hadv t (by simp)
+            have := ih' .next (t :: r) hadv
+            simp only [advance, List.drop_one, List.tail_cons] at this
+            simp only [List.singleton_append, run, langWords, any_cond_eq as t v ht hw, altsR_ok as t v hw]
+            by_cases hc : as.any (·.eval t v) = true
+            · simpa [hc, Res.ofBool] using this
+            · left; simp [hc, Res.ofBool]
+      | neg s =>
+        simp only [List.append_assoc, run_goto, hA, hck']
+        have hrec := ih' .nextSafe
+        simp only [advance] at hrec
+        cases A with
+        | nil =>
+          simp only [List.singleton_append, run, langWords]
+          simpa using hrec [] (by simp)
+        | cons t r =>
+          simp only [List.singleton_append, run, langWords]
+          by_cases hs : t.str = s
+          · left; simp [hs]
+          · have := hrec (t :: r) hadv
+            simp only [List.drop_one, List.tail_cons] at this
+            simpa [hs] using this
+      | one a =>
+        rw [hwd] at hw
+        simp only [wordOk] at hw
+        simp only [List.append_assoc, run_goto, hA, hck']
+        cases A with
+        | nil => left; simp [run, langWords]
+        | cons t r =>
+          have ht : TokWF t = true := hadv t (by simp)
+          have := ih' .next (t :: r) hadv
+          simp only [advance, List.drop_one, List.tail_cons] at this
+          simp only [List.singleton_append, run, langWords, List.any_cons, List.any_nil, Bool.or_false,
+            cond_eval_eq a t v ht hw, evalR_ok a t v hw]
+          by_cases hc : a.eval t v = true
+          · simpa [hc, Res.ofBool] using this
+          · left; simp [hc, Res.ofBool]
 
 end Cppcheck.Match
